@@ -11,3 +11,5 @@ open Femio.C10
 #print axioms C10_fistr_same_keys
 #print axioms C10_fistr_numbers
 #print axioms C10_obj_roundtrip
+#print axioms C10_obj_lex_print
+#print axioms C10_obj_roundtrip_chars
